@@ -49,6 +49,7 @@
 #define DEFAULT_BLOCK_RESTART_INTERVAL	16
 #define DEFAULT_BLOCK_SIZE		8192
 #define MIN_BLOCK_SIZE			1024
+#define MIN_BLOCK_RESTART_INTERVAL	1
 
 #define DEFAULT_SORTER_TEMP_DIR		"/var/tmp"
 #define DEFAULT_SORTER_MEMORY		1073741824
